@@ -729,7 +729,21 @@ impl AssemblyCode {
                         | AsmMnemonic::EOR
                         | AsmMnemonic::AND
                         | AsmMnemonic::ORA => accumulator = None,
-                        AsmMnemonic::LSR | AsmMnemonic::ASL => accumulator = None,
+                        AsmMnemonic::LSR | AsmMnemonic::ASL | AsmMnemonic::ROL | AsmMnemonic::ROR => {
+                            // The accumulator or the memory operand is modified
+                            accumulator = None;
+                            if let Some(v) = &x_register {
+                                if v.eq(&inst.dasm_operand) {
+                                    x_register = None;
+                                }
+                            }
+                            if let Some(v) = &y_register {
+                                if v.eq(&inst.dasm_operand) {
+                                    y_register = None;
+                                }
+                            }
+                            flags = FlagsState::Unknown;
+                        }
                         AsmMnemonic::PLA | AsmMnemonic::PHA => accumulator = None,
                         AsmMnemonic::JSR | AsmMnemonic::JMP => {
                             accumulator = None;
